@@ -90,7 +90,11 @@ func TestVerif_C19(t *testing.T) {
 				prefix = append(prefix, vfOp{Op: "attr", Path: "/d", Name: fmt.Sprintf("fill%02d", i), Value: []string{"i64", "s1", "f32"}[i%3]})
 			}
 			d := depth
-			if (c.name != "default+toggles" && c.name != "rebalancing-off") || (k != 9 && !r.Thorough()) {
+			// full depth for the default configuration with toggles, for rebalancing off, and for
+			// one configuration of each family (lazy, lazy+incremental, smart); the other parameter
+			// sets of a family one step less (quick tier: full depth only from 9 attributes)
+			fullDepth := map[string]bool{"default+toggles": true, "rebalancing-off": true, "lazy(0.2,default,100)": true, "lazy+incremental(1us,1us)": true, "smart(default)": true}
+			if !fullDepth[c.name] || (k != 9 && !r.Thorough()) {
 				d = depth - 1
 			}
 			en := func(hist []vfOp) []vfOp {
